@@ -93,6 +93,22 @@ def key_native(ops, step):
     return "Atomic.agg:%s:%s" % (t[1], t[2])
 
 
+def replay_line(run, choices):
+    """The arguments of a run with its schedule replaced by the schedule that was actually executed."""
+    args = []
+    skip = False
+    for a in run:
+        if skip:
+            skip = False
+        elif a == "--sched":
+            skip = True
+        elif a in ("--np",):
+            pass
+        else:
+            args.append(a)
+    return " ".join(args) + " --sched " + '"%s"' % choices
+
+
 def check_runs(ctx, binary, runs, tag, expect_no_divergence=False):
     combined, results = vlib.run_sched_executions(binary, runs, ctx.work, tag, parallel=PAR)
     ctx.evaluations += sum(r.get("steps", 0) for r in results)
@@ -102,7 +118,7 @@ def check_runs(ctx, binary, runs, tag, expect_no_divergence=False):
         div += 1 if r.get("diverged", 0) else 0
         if r["verdict"] != "done":
             bad.add(i)
-            rp = ctx.save_replay("%s_%d.args" % (tag, i), [" ".join(runs[i]) + " --sched " + '"%s"' % r.get("choices", "")])
+            rp = ctx.save_replay("%s_%d.args" % (tag, i), [replay_line(runs[i], r.get("choices", ""))])
             if "DRIVER-ERROR" in r.get("stderr", ""):
                 ctx.broken.append("scenario refused its arguments: %s: %s" % (" ".join(runs[i]), r["stderr"][-300:]))
                 continue
@@ -116,7 +132,7 @@ def check_runs(ctx, binary, runs, tag, expect_no_divergence=False):
         for i, res in enumerate(results):
             if res["lines"][0] <= line <= res["lines"][1] and i not in bad:
                 bad.add(i)
-                rp = ctx.save_replay("%s_%d.args" % (tag, i), [" ".join(runs[i]) + " --sched " + '"%s"' % res.get("choices", "")])
+                rp = ctx.save_replay("%s_%d.args" % (tag, i), [replay_line(runs[i], res.get("choices", ""))])
                 ctx.report(key_sched(runs[i], why), rp, "Layer-1 mismatch at trace line %d (%s) of %s\nschedule: %s" % (
                     line - res["lines"][0] + 1, why, " ".join(runs[i]), res.get("choices", "")))
     ctx.drift += div
@@ -152,7 +168,9 @@ def rand_op(rng, kind, around):
     if NARGS[f] == 1:
         return "%s:%x" % (f, rand_val(rng, kind, around))
     if NARGS[f] == 2:
-        return "cas:%x:%x" % (rand_val(rng, kind, around), rand_val(rng, kind, around))
+        mask = (1 << WIDTH[kind]) - 1
+        exp = (around + rng.randint(-1, 1)) & mask if rng.random() < 0.7 else rand_val(rng, kind, around)     # expected values that are often hit
+        return "cas:%x:%x" % (exp, rand_val(rng, kind, around))
     return f
 
 
@@ -261,13 +279,13 @@ def run(ctx):
             runs.append(sched_args(kind, (base + initk) & mask, ptxt) + ["--seed", str(ctx.seed + i), "--spur", "0", "--sched", " ".join(str(st[1][0]) for st in w)])
         check_runs(ctx, sched, runs, "graph_" + n, expect_no_divergence=True)
     # (3) direction B under the scheduler: random programs, random and PCT schedules
-    nrand = 600 if ctx.quick else 12000
+    nrand = 1000 if ctx.quick else 12000
     runs = [rand_sched_run(ctx.rng, i, ctx.seed) for i in range(nrand)]
     check_runs(ctx, sched, runs, "random")
     # (4) native: sequential semantics of every declared overload at the type limits; concurrent executions judged by the
     #     linearization search; long stress runs judged by conservation and the driver's oracles
     seq = sequential_table(ctx.rng, ctx.quick)
-    conc = concurrent_execs(ctx.rng, 400 if ctx.quick else 6000)
+    conc = concurrent_execs(ctx.rng, 1000 if ctx.quick else 8000)
     agg = agg_lines(ctx.rng, ctx.quick)
     ctx.notes["native_sequential_execs"] = len(seq)
     ctx.notes["native_concurrent_execs"] = len(conc)
